@@ -1229,11 +1229,11 @@ func triggerC19(w *World, v Violation) string {
 func failedRefetchDropsEvents(w *World, name string) bool {
 	// The gateway drops state events for a resource from the moment a matching
 	// system.reset is handled (the re-fetch may still be waiting in the reset
-	// throttle) until the re-fetch answer is processed.
-	resetting := false
-	evs := 0
-	gets := map[string]int{}
-	refetch := map[int]bool{}
+	// throttle) until the re-fetch answer is processed. The re-fetches of a reset
+	// are the gets requested after it (a get already outstanding is not one).
+	armed := false         // a matching reset was delivered, its re-fetch not yet requested
+	open := map[int]bool{} // outstanding re-fetch requests
+	evs := 0               // state events delivered while armed or a re-fetch was outstanding
 	for _, e := range w.Log() {
 		switch e.Kind {
 		case "mq_ev":
@@ -1243,28 +1243,28 @@ func failedRefetchDropsEvents(w *World, name string) bool {
 				}
 				if json.Unmarshal(e.Payload, &p) == nil {
 					for _, pat := range p.Resources {
-						if RefPatternMatch(pat, name) && !resetting {
-							resetting = true
-							evs = 0
+						if RefPatternMatch(pat, name) {
+							if !armed && len(open) == 0 {
+								evs = 0
+							}
+							armed = true
 						}
 					}
 				}
 			}
-			if resetting && strings.HasPrefix(e.Subject, "event."+name+".") {
+			if (armed || len(open) > 0) && strings.HasPrefix(e.Subject, "event."+name+".") {
 				ev := e.Subject[len("event."+name+"."):]
 				if ev == "change" || ev == "add" || ev == "remove" || ev == "delete" {
 					evs++
 				}
 			}
 		case "mq_req":
-			if e.Subject == "get."+name {
-				gets[e.Query]++
-				if resetting {
-					refetch[e.Req] = true
-				}
+			if e.Subject == "get."+name && armed {
+				open[e.Req] = true
 			}
 		case "mq_complete":
-			if refetch[e.Req] {
+			if open[e.Req] {
+				delete(open, e.Req)
 				failed := e.Err != "" || strings.Contains(string(e.Payload), `"error"`) || !strings.Contains(string(e.Payload), `"result"`)
 				if e.Step >= 0 && e.Step < len(w.Script) && w.Script[e.Step].K == "ans" && w.Script[e.Step].O == "raw" {
 					failed = true // a hand-made answer: the gateway may reject it
@@ -1272,8 +1272,8 @@ func failedRefetchDropsEvents(w *World, name string) bool {
 				if failed && evs > 0 {
 					return true
 				}
-				if !failed {
-					resetting = false
+				if len(open) == 0 {
+					armed = false
 				}
 			}
 		}
